@@ -525,8 +525,9 @@ def named_length_cases(rng, n):
             decls.append("const SIZE: usize = |:Pack|;")
         vals = [rng.randrange(1, 90) for _ in range(size)]
         decls.append("const TABLE: [SIZE]i32 = [%s];" % ", ".join(map(str, vals)))
-        if rng.random() < 0.5:
-            decls.append("struct Holder\n{\n\trow: [SIZE]i32,\n}")
+        holder = rng.choice([None, "[SIZE]i32", "&[SIZE]i32", "&&[SIZE]i32", "[2]&[SIZE]i32", "&[2][SIZE]i32"])
+        if holder:
+            decls.append("struct Holder\n{\n\trow: %s,\n}" % holder)
         decls.append("fn main() -> i32\n{\n\tvar total = 0;\n\tvar i: usize = 0;\n\t{\n\t\tif i == |TABLE|\n\t\t\tgoto end;\n"
                      "\t\ttotal = total + TABLE[i];\n\t\ti = i + 1;\n\t\tloop;\n\t}\n\tend:\n\tprint!(total, \"\\n\");\n\treturn: 0\n}")
         out.append(("named", decls, sum(vals), form))
